@@ -916,6 +916,11 @@ func (f *Frame) genericLoop(st *State, label string, ls *loopSpec,
 		back = postFn(back)
 	}
 	if back != nil {
+		if c.eng.coverReturns && f.contract != nil && c.discovery == 0 {
+			// vacuity probe: the end of the loop body must be reachable, otherwise every "preserve" obligation of this
+			// loop holds for no reason (found the hard way: a trusted callee contract that was contradictory)
+			c.cover(back, fmt.Sprintf("%s#reach@loop%d.back", f.contract.Name, ls.ord))
+		}
 		f.loopInvariants(back, ls, true, "preserve")
 		if dec0 != nil {
 			dec1 := f.decreasesTerm(back, ls)
